@@ -40,6 +40,21 @@ Definition model (t : tree) : option (list Z) :=
   (* scoring: the genome the maker produced, scorer(genome) = [sum; product-ish] : [genome...; -7; results...] *)
   | L [A 9; g] => olet g := tlist tZ g in
       let r := map (fun x => 3 * x + 1) g in Some (g ++ [-7] ++ (total (results_from r) :: r))
+  (* min, max (method and free function), clamp to the ordered pair of the other two, iterator max / min *)
+  | L [A 10; A pol; A x; A y; A z] =>
+      let c := if pol =? 0 then score_cmp else error_cmp in
+      let lo := match c y z with Gt => z | _ => y end in
+      let hi := match c y z with Gt => y | _ => z end in
+      (* Iterator::max keeps the LAST of equal maxima, Iterator::min the first of equal minima: equal values are
+         indistinguishable here (they are equal integers) *)
+      Some [omin c x y; omax c x y; omin c x y; omax c x y; oclamp c x lo hi; omax c (omax c x y) z; omin c (omin c x y) z]
+  (* clone_from: the target ends up with the source's results and total *)
+  | L [A 11; A _; _; vb] => olet vb := tlist tZ vb in
+      let r := total (results_from vb) :: cases (results_from vb) in Some (r ++ [-7] ++ r)
+  (* individuals over a single score-or-error result *)
+  | L [A 12; L [ga; ra]; L [gb; rb]] =>
+      olet ga := tlist tZ ga in olet gb := tlist tZ gb in olet ra := dec_tres ra in olet rb := dec_tres rb in
+      Some (expect (tres_pcmp ra rb) (zlist_eqb ga gb && tres_eqb ra rb) false)
   | _ => None
   end.
 
